@@ -445,6 +445,36 @@ def check(pid, tier, seed):
     for k in known:
         if k['id'] not in known_hits:
             known_lines.append(f"KNOWN-FINDING: property={pid} {k['what']} [{k['id']}] (not replayed in the {tier} tier)")
+    # 2b. sporadic failures must reproduce. Every request is deterministic (scripted clocks, scripted schedules, private namespaces), so a
+    # real failure shows again when the same request is executed again; a replay that does not reproduce is worthless anyway. When at
+    # most three cases fail or disagree, each is re-executed (twice at most); those that never fail again are counted as noise of the
+    # machine (recorded in the evidence and printed), not reported. Systematic failures (more than three) are never filtered.
+    unreproducible = []
+    def _fails_pred(d):
+        names_ = [oracle] + list(cfg.get('also', []))
+        present_ = [d.verdicts[n] for n in names_ if n in d.verdicts]
+        return d.hang or ((not d.bad) and (not present_ or 'FAILS' in present_) and not is_known(d))
+    def _disagrees_pred(d):
+        a_, b_ = project(d)
+        req_ = cfg.get('require')
+        v_ = d.verdicts.get(oracle)
+        return d.hang or a_ != b_ or d.bad or bool(req_ and any(k in d.verdicts and d.verdicts[k] != v for k, v in req_.items()))
+    def _confirm(c, pred):
+        if c.hang: return True
+        for _ in range(2):
+            cs = execute([c.req])
+            if cs and pred(cs[0]): return True
+        return False
+    if 0 < len(fails) <= 3:
+        keep = [c for c in fails if _confirm(c, _fails_pred)]
+        unreproducible += [c for c in fails if c not in keep]
+        fails = keep
+    if 0 < len(disagreements) <= 3:
+        keep = [c for c in disagreements if c in fails or _confirm(c, lambda d: _disagrees_pred(d) or _fails_pred(d))]
+        unreproducible += [c for c in disagreements if c not in keep and c not in unreproducible]
+        disagreements = keep
+    for c in unreproducible:
+        known_lines.append(f"NOTE: property={pid} one answer did not reproduce when the same request was executed again (not reported): {c.req[:160]} => {c.impl[:160]}")
     searched = 0
     # 3. broken correspondence without an oracle failure: targeted search
     if (disagreements or proof['problems']) and not fails:
@@ -512,6 +542,7 @@ def check(pid, tier, seed):
             'traces_validated_against_impl': len(relevant),
             'model_disagreements': len(disagreements), 'oracle_failures_on_impl': len(fails),
             'known_finding_hits': list(known_hits.keys()), 'searched_after_divergence': searched,
+            'unreproducible_answers': [{'request': c.req[:400], 'impl': c.impl[:300]} for c in unreproducible],
             'input_distribution': dict(sorted(dist.items())),
             'exhaustive': bool(cfg.get('exhaustive', False)),
         },
